@@ -31,9 +31,9 @@ pub fn run_scenarios(property: &str, args: &Args, scenarios: Vec<Scenario>, tota
 		let mut cfg = sc.cfg.clone();
 		cfg.threads = args.threads;
 		// the remaining wall budget is shared over the remaining scenarios, but a heavy scenario may use
-		// up to a third of what is left (most scenarios need far less than an even share)
+		// up to half of what is left (most scenarios need far less than an even share)
 		let left = total_cap.saturating_sub(start.elapsed());
-		let share = (left / ((n - i) as u32)).max(left / 3);
+		let share = (left / ((n - i) as u32)).max(left / 2);
 		cfg.wall_cap = Some(match cfg.wall_cap {
 			Some(c) => c.min(share),
 			None => share,
